@@ -74,4 +74,4 @@ def run(ctx):
     CTX = ctx
     c02.CTX = ctx
     names = sched.op_names(groups=("core", "storage", "loop"), weights={"make_instr": 0, "lift_alloc": 6, "sink_alloc": 6, "stage_mem": 6, "reuse_buffer": 4, "fission": 5, "specialize": 4, "inline_window": 4, "unroll_loop": 4})
-    run_cases(ctx, c02.case_strategy(names), guarded(ctx, check_case), ctx.budget(256, 30000))
+    run_cases(ctx, c02.case_strategy(names), guarded(ctx, check_case), ctx.budget(400, 30000))
